@@ -237,7 +237,13 @@ func runGoatBlock(rng *Rng, n int, st *Stats, param string) ([]string, []any) {
 		nmem := r.Intn(4)
 		var extra []string // ptx descriptors of the mempool txs that made it into the proposal
 		for i := 0; i < nmem; i++ {
-			switch r.Intn(3) {
+			switch r.Intn(5) {
+			case 3: // admissible when it was checked, expired at the proposed height: evicted, not proposed
+				mempool = append(mempool, w.BuildTx(w.RelPriv, TxOpt{Timeout: uint64(w.Height - 1)}, mkMsg(w, "goat.bitcoin.v1.MsgNewBlockHashes", w.RelAddr)))
+				st.Count("mempool:tx-expiring-at-the-proposed-height")
+			case 4: // the relayer proposer broadcasts an execution-block message of its own: never admitted to the mempool
+				mempool = append(mempool, w.BuildTx(w.RelPriv, TxOpt{Timeout: uint64(w.Height)}, &goattypes2.MsgNewEthBlock{Proposer: sdk.AccAddress(w.RelPriv.PubKey().Address()).String(), Payload: clonePayload(w.decodeEthBlock(fill.PrepareTxs[0]).Payload)}))
+				st.Count("mempool:block-message-signed-by-the-relayer-proposer")
 			case 0:
 				if i == 0 {
 					mempool = append(mempool, w.blockHashesTx())
@@ -371,6 +377,18 @@ func runGoatBlock(rng *Rng, n int, st *Stats, param string) ([]string, []any) {
 		case 2:
 			structural += "+empty"
 			proposal, ptxs = nil, nil
+		case 3:
+			// the same signed relayer transaction twice: the copy must fail the account-sequence check
+			if len(proposal) > 0 && len(proposal) < 15 {
+				structural += "+relayer-tx-replayed"
+				if len(rest) == 0 {
+					t := w.blockHashesTx()
+					proposal = append(proposal, t)
+					ptxs = append(ptxs, "(mkPT true 1 false false true)")
+				}
+				proposal = append(proposal, proposal[len(proposal)-1])
+				ptxs = append(ptxs, "(mkPT false 1 false false true)")
+			}
 		}
 		if !facts.engine {
 			w.EL.mu.Lock()
@@ -407,6 +425,9 @@ func runGoatBlock(rng *Rng, n int, st *Stats, param string) ([]string, []any) {
 		}
 		if accepted && strings.Contains(structural, "block-msg-twice-in-first-tx") {
 			st.Violate("C08", "accept-sound", "block-msg-not-alone-accepted", "a proposal whose first transaction carries the execution-block message twice was accepted", desc)
+		}
+		if accepted && strings.Contains(structural, "+relayer-tx-replayed") {
+			st.Violate("C10", "process-admission", "replayed-tx-accepted", "a proposal carrying the same signed relayer transaction twice was accepted: the replay passed the account-sequence check", desc)
 		}
 		if accepted && strings.Contains(structural, "block-tx-") {
 			st.Violate("C10", "process-admission", "inadmissible-block-tx-accepted:"+structural, "a proposal whose block transaction is inadmissible ("+structural+") was accepted in process mode", desc)
@@ -500,8 +521,9 @@ func (a *abciCheck) req() *abci.RequestCheckTx { return &abci.RequestCheckTx{Tx:
 func runFaults(rng *Rng, n int, st *Stats, param string) ([]string, []any) {
 	var cases []string
 	var replays []any
-	kinds := []string{"error", "invalid", "syncing", "accepted", "nopayloadid", "timeout"}
-	ans := map[string]string{"error": "AError", "invalid": "AInvalid", "syncing": "ASyncing", "accepted": "AAccepted", "": "AValid", "nopayloadid": "AValid", "timeout": "AError"}
+	kinds := []string{"error", "invalid", "syncing", "accepted", "nopayloadid", "timeout", "invalid-with-id", "syncing-with-id"}
+	ans := map[string]string{"error": "AError", "invalid": "AInvalid", "syncing": "ASyncing", "accepted": "AAccepted", "": "AValid", "nopayloadid": "AValid", "timeout": "AError",
+		"invalid-with-id": "AInvalid", "syncing-with-id": "ASyncing"}
 	var w *World
 	fresh := func() {
 		if w != nil {
@@ -522,6 +544,9 @@ func runFaults(rng *Rng, n int, st *Stats, param string) ([]string, []any) {
 		}
 		if kind == "nopayloadid" && phase != "prepare-fc" {
 			kind = "invalid"
+		}
+		if strings.HasSuffix(kind, "-with-id") && phase != "prepare-fc" {
+			kind = strings.TrimSuffix(kind, "-with-id")
 		}
 		if kind == "accepted" && phase != "process-np" && phase != "final-np" {
 			kind = "syncing"
